@@ -96,7 +96,15 @@ def typecomment_first_use(rng):
             ["from tcpkg import tcname9"], [])
 
 
+def import_future_module(rng):
+    # `import __future__` is an ordinary import that may follow code: a mandatory `from __future__` import must not
+    # join its block
+    return (rng.choice(["x9 = 1\nimport __future__\nprint(__future__)\n", "x9 = 1\nimport __future__ as F9\nprint(F9)\n",
+                        "from __future__ import division\nx9 = 1\nimport __future__\nprint(__future__)\n"]),
+            [], ["from __future__ import annotations"])
+
+
 SCENARIOS = [two_dotted_uses, import_after_use_same_line, midline_unused, future_and_caps, late_rebinding,
              dotted_prefix_use, del_then_use, header_doc, doctest_import, shadowing_param,
              lambda_then_late_import, bad_doctest, del_then_use_other_import, type_comment_lookalikes,
-             multiline_decorator, typecomment_first_use]
+             multiline_decorator, typecomment_first_use, import_future_module]
